@@ -41,7 +41,10 @@ def gen_cases(ctx, n):
     while len(cases) < n:
         r = rng.random()
         geometry = 'sparse' if rng.random() < 0.7 else 'plain'
-        if r < 0.85:
+        directed = None
+        if r < 0.4:
+            w, segs, tags, directed = ig.directed_native_case(rng)
+        elif r < 0.88:
             w, segs, tags = ig.gen_image(rng, w=rng.choice([16, 32, 32, 64, 64, 64, 8]), geometry=geometry)
         else:
             w = rng.choice([16, 32, 64])
@@ -63,7 +66,9 @@ def gen_cases(ctx, n):
                 'tags': tags + [geometry], 'read_mem': mem_addresses(segs)}
         # one native configuration set per image + the fast engine as cross-check
         variants = [dict(base, engine='fast', last_ops=rng.choice([None, 3]))]
-        for _ in range(3):
+        if directed is not None:
+            variants.append(dict(base, engine='native', **directed))
+        for _ in range(2 if directed is not None else 3):
             variants.append(dict(base, engine='native', **knobs(rng, w)))
         cases.append(variants)
     return cases
